@@ -7,6 +7,8 @@ Metamorphic: a pattern and the same pattern with every alternation reversed must
 import re
 import warnings
 
+import os
+
 import common
 from common import Stats
 
@@ -364,7 +366,12 @@ def worker(job):
                     c2 = "r%d" % cid
                     meta[c2] = (ast, syntax, test, shape, args_r, mode, paths, True)
                     lines.append("\t".join([c2, "P", "1", str(len(args_r))] + [common.hx(a) for a in args_r] + [common.hx(p) for p in paths]))
-        res = common.run_vh("match", lines, base, cwd=base, per_case_timeout=60)
+        # (the choice of syntax - emacs by default - is a matter of the command line only: POSIXLY_CORRECT in the environment of half the
+        # workers must not change a single answer)
+        envp = dict(os.environ, POSIXLY_CORRECT="1") if k % 2 else None
+        if envp:
+            st.inc("batches_run_with_POSIXLY_CORRECT_set")
+        res = common.run_vh("match", lines, base, cwd=base, per_case_timeout=60, env=envp)
         for c, (ast, syntax, test, shape, args, mode, paths, reversed_) in meta.items():
             r = res.get(c)
             rp = {"args": args, "paths": paths}
